@@ -108,10 +108,10 @@ def evalBin (op : Op) (l r : PVal) : EvalRes :=
     | .or => .val (.bool (l.getBoolean || r.getBoolean))
     | .dequal => .val (.bool (l.getBoolean == r.getBoolean))
     | .nequal => .val (.bool (l.getBoolean != r.getBoolean))
-    | .less => .val (.bool (l.getNumber < r.getNumber))
-    | .greater => .val (.bool (l.getNumber > r.getNumber))
-    | .lesseq => .val (.bool (l.getNumber ≤ r.getNumber))
-    | .greatereq => .val (.bool (l.getNumber ≥ r.getNumber))
+    | .less => .val (.bool (l.getNumber < (PVal.bool r.getBoolean).getNumber))
+    | .greater => .val (.bool (l.getNumber > (PVal.bool r.getBoolean).getNumber))
+    | .lesseq => .val (.bool (l.getNumber ≤ (PVal.bool r.getBoolean).getNumber))
+    | .greatereq => .val (.bool (l.getNumber ≥ (PVal.bool r.getBoolean).getNumber))
     | _ => .panic "SHOULDN'T GET HERE (bool)"
   | .number =>
     match op with
